@@ -5,6 +5,7 @@ package verifh
 import (
 	"context"
 	"fmt"
+	"github.com/spf13/pflag"
 	"io"
 	"os"
 	"path/filepath"
@@ -50,6 +51,34 @@ func putFile(dir, stage, name string, content []byte) {
 		panic(err)
 	}
 }
+
+// dynMgr goes through Config.NamespaceManager() on every call, the way the handlers do: a configuration reload may
+// replace the manager underneath
+type dynMgr struct{ p *config.Config }
+
+func (d dynMgr) cur() (namespace.Manager, error) { return d.p.NamespaceManager() }
+func (d dynMgr) GetNamespaceByName(ctx context.Context, name string) (*namespace.Namespace, error) {
+	m, err := d.cur()
+	if err != nil {
+		return nil, err
+	}
+	return m.GetNamespaceByName(ctx, name)
+}
+func (d dynMgr) GetNamespaceByConfigID(ctx context.Context, id int32) (*namespace.Namespace, error) {
+	m, err := d.cur()
+	if err != nil {
+		return nil, err
+	}
+	return m.GetNamespaceByConfigID(ctx, id)
+}
+func (d dynMgr) Namespaces(ctx context.Context) ([]*namespace.Namespace, error) {
+	m, err := d.cur()
+	if err != nil {
+		return nil, err
+	}
+	return m.Namespaces(ctx)
+}
+func (d dynMgr) ShouldReload(v interface{}) bool { return false }
 
 type sampler struct {
 	mu   sync.Mutex
@@ -109,6 +138,9 @@ func suiteWatch(t *testing.T, cfg cfgT) {
 		if scripted {
 			opl = false
 		}
+		// every third random round goes through the configuration provider with a real main configuration file, and
+		// also edits that file in ways that do not concern the namespaces
+		viaConfig := !scripted && round%3 == 1
 		base := t.TempDir()
 		dir, stage := filepath.Join(base, "watched"), filepath.Join(base, "stage")
 		_ = os.Mkdir(dir, 0o700)
@@ -193,7 +225,27 @@ func suiteWatch(t *testing.T, cfg cfgT) {
 		ctx, cancel := context.WithCancel(context.Background())
 		var m namespace.Manager
 		var err error
-		if opl {
+		cfgFile := filepath.Join(base, "keto.yaml")
+		cfgDepth := 5
+		var prov *config.Config
+		writeCfg := func() {
+			nsCfg := "namespaces: file://" + dir
+			if opl {
+				nsCfg = "namespaces:\n  location: file://" + dir
+			}
+			body := fmt.Sprintf("dsn: memory\n%s\nlimit:\n  max_read_depth: %d\n", nsCfg, cfgDepth)
+			tmp := filepath.Join(stage, "keto.yaml.tmp")
+			_ = os.WriteFile(tmp, []byte(body), 0o600)
+			_ = os.Rename(tmp, cfgFile)
+		}
+		if viaConfig {
+			writeCfg()
+			prov, err = config.NewDefault(ctx, pflag.NewFlagSet("verif", pflag.ContinueOnError), l, configx.WithConfigFiles(cfgFile))
+			if err == nil {
+				m = dynMgr{p: prov}
+				_, err = prov.NamespaceManager()
+			}
+		} else if opl {
 			c, e2 := config.NewDefault(ctx, nil, l, configx.SkipValidation())
 			if e2 != nil {
 				t.Fatal(e2)
@@ -247,6 +299,19 @@ func suiteWatch(t *testing.T, cfg cfgT) {
 			f := hr.pick(files)
 			before := nsNames(m)
 			var e ev
+			if viaConfig && hr.chance(1, 4) { // an edit of the main configuration file that does not concern the namespaces
+				cfgDepth = 3 + (cfgDepth+1)%7
+				writeCfg()
+				dl := time.Now().Add(3 * time.Second)
+				for time.Now().Before(dl) && prov.MaxReadDepth() != cfgDepth {
+					time.Sleep(5 * time.Millisecond)
+				}
+				time.Sleep(150 * time.Millisecond)
+				out.emit("wtouch - -", strings.TrimSpace(fmt.Sprintf("%s ; seen %s", nsNames(m), strings.Join(smp.take(), " | "))))
+				out.stat("touch")
+				events++
+				continue
+			}
 			if !scripted && hr.chance(1, 6) {
 				_ = os.Remove(filepath.Join(dir, f+ext))
 				e = ev{kind: "remove", file: f + ext}
